@@ -63,6 +63,7 @@ class OpVal:
         self.op = op
         self.args = args
         self.expr = None  # the expression the op is attributed to (first argument of TealOp)
+        self.tags: Dict[str, Any] = {}  # attributes stored on the op by the analysed code (source-map containers)
 
     def __repr__(self):
         return " ".join([self.op] + [str(a) for a in self.args])
@@ -527,6 +528,31 @@ class MiniEval:
                     if pname in params and params.index(pname) < len(base.parts[1]):
                         return base.parts[1][params.index(pname)]
             return Rec("attr", base, attr)
+        if isinstance(base, OpVal):
+            # the TealOp interface of a constructed op
+            def opsym():
+                if base.op.startswith("$"):
+                    return Sym("Op." + base.op, attrs={"name": base.op, "min_version": 0})
+                ops = self.oracle(ast.Name(id="Op", ctx=ast.Load()), self)
+                return ops.attrs[base.op]
+
+            if attr == "getOp":
+                return opsym
+            if attr == "op":
+                return opsym()
+            if attr == "args":
+                return base.args
+            if attr == "expr":
+                return base.expr
+            if attr == "getSlots":
+                return lambda: [a for a in base.args if isinstance(a, Sym) and a.name.startswith("slot")]
+            if attr == "getSubroutines":
+                return lambda: [a for a in base.args if isinstance(a, Sym) and "SubroutineDefinition" in a.attrs.get("$isa", ())]
+            if attr in base.tags:
+                return base.tags[attr]
+            if attr == "_sframes_container":
+                return None
+            raise AnalysisError(f"{self.where}: attribute `{u(e)}` of a constructed op is not modelled")
         if isinstance(base, type) and base in SAFE_TYPE_ATTRS and attr in SAFE_TYPE_ATTRS[base]:
             return getattr(base, attr)
         import types as _types
@@ -815,6 +841,8 @@ class MiniEval:
             if isinstance(base, Sym):
                 base.attrs[target.attr] = v
             elif isinstance(base, Rec):
+                base.tags[target.attr] = v
+            elif isinstance(base, OpVal):
                 base.tags[target.attr] = v
             else:
                 raise AnalysisError(f"{self.where}: attribute store `{u(target)}`")
